@@ -310,6 +310,7 @@ pub fn minimise(r: &Replay, budget: Duration) -> Replay {
                 cw.expect.main_host_calls = None;
                 cw.expect.error_prefix = None;
                 cw.expect.error_line = None;
+                cw.expect.error_file = None;
                 c.workload = Some(cw);
                 m.reproduces(&c)
             });
